@@ -1,5 +1,7 @@
 """C03 — the two decoders and the two encoders are interchangeable."""
 import os
+import re
+import shutil
 import common
 from common import sh2
 
@@ -85,6 +87,263 @@ def gen_registry(exe):
     return len(keys["R"]), len(keys["S"]), sorted(set(keys["R"]) ^ set(keys["S"]))
 
 
+FACTS_V = os.path.join(common.COQ, "c03", "C03Facts.v")
+DEFS_V = os.path.join(common.COQ, "c03", "C03FactsDefs.v")
+
+# Hand-checked expectations for the extractor (read off the Go text of the pinned tree): box type -> (reader-path decoder, class,
+# SR decoder position-relative).  A deviation means the source changed class or the extractor is wrong: either way the
+# classification theorem's lists need a second look, so it is reported.
+EXPECT_DEC = {
+    # delegating, relative
+    "btrt": ("DecodeBtrt", "delegating", True), "tfhd": ("DecodeTfhd", "delegating", True), "colr": ("DecodeColr", "delegating", True),
+    "stts": ("DecodeStts", "delegating", True), "ftyp": ("DecodeFtyp", "delegating", True), "mvhd": ("DecodeMvhd", "delegating", True),
+    "sidx": ("DecodeSidx", "delegating", True), "kind": ("DecodeKind", "delegating", True), "url ": ("DecodeURLBox", "delegating", True),
+    "ctim": ("DecodeCtim", "delegating", True), "CoLL": ("DecodeCoLL", "delegating", True), "vpcC": ("DecodeVppC", "delegating", True),
+    "emib": ("DecodeEmib", "delegating", True), "hdlr": ("DecodeHdlr", "delegating", True),
+    # delegating, SR decoder position-dependent
+    "emsg": ("DecodeEmsg", "delegating", False), "meta": ("DecodeMeta", "delegating", False), "esds": ("DecodeEsds", "delegating", False),
+    "avc1": ("DecodeVisualSampleEntry", "delegating", False), "sgpd": ("DecodeSgpd", "delegating", False),
+    "trep": ("DecodeTrep", "delegating", False), "stpp": ("DecodeStpp", "delegating", False), "wvtt": ("DecodeWvtt", "delegating", False),
+    "evte": ("DecodeEvte", "delegating", False),
+    # container twins / body containers
+    "dinf": ("DecodeDinf", "container-twin", False), "traf": ("DecodeTraf", "container-twin", False), "trak": ("DecodeTrak", "container-twin", False),
+    "mdia": ("DecodeMdia", "container-twin", False), "minf": ("DecodeMinf", "container-twin", False), "udta": ("DecodeUdta", "container-twin", False),
+    "mfra": ("DecodeMfra", "container-twin", False), "stbl": ("DecodeStbl", "container-twin+accerr", False),
+    "edts": ("DecodeEdts", "container-twin+accerr", False), "sinf": ("DecodeSinf", "container-twin+accerr", False),
+    "moov": ("DecodeMoov", "container-body", False), "moof": ("DecodeMoof", "container-body+accerr", False),
+    # separately written
+    "trun": ("DecodeTrun", "separate", True), "senc": ("DecodeSenc", "separate", True), "mdat": ("DecodeMdat", "separate", True),
+    "stsd": ("DecodeStsd", "separate", False), "mfhd": ("DecodeMfhd", "separate", True), "tfdt": ("DecodeTfdt", "separate", True),
+    "free": ("DecodeFree", "separate", True), "avcC": ("DecodeAvcC", "separate", True), "dref": ("DecodeDref", "separate", False),
+    "mp4a": ("DecodeAudioSampleEntry", "separate", False), "vttc": ("DecodeVttc", "separate", False), "styp": ("DecodeStyp", "separate", True),
+    "cdat": ("DecodeCdat", "separate", True), "dac3": ("DecodeDac3", "separate", True),
+}
+EXPECT_ENC = {
+    "BtrtBox": "delegating", "TrunBox": "delegating", "TfhdBox": "delegating", "FtypBox": "delegating", "MvhdBox": "delegating",
+    "SttsBox": "delegating", "EmsgBox": "delegating", "SidxBox": "delegating", "URLBox": "delegating", "ColrBox": "delegating",
+    "DinfBox": "container", "TrafBox": "container", "MoovBox": "container", "StblBox": "container", "UdtaBox": "container",
+    "VtteBox": "header", "EmebBox": "header",
+    "File": "twin", "Fragment": "twin", "MediaSegment": "twin", "InitSegment": "twin", "MoofBox": "twin", "Av1CBox": "twin", "HvcCBox": "twin",
+    "MdatBox": "separate", "StsdBox": "separate", "VisualSampleEntryBox": "separate", "AudioSampleEntryBox": "separate",
+    "SencBox": "separate", "DrefBox": "separate", "MetaBox": "separate", "TrepBox": "separate", "WvttBox": "separate",
+}
+
+# Mutations of a scratch copy of the sources: (file, old text, new text, box type, what the extractor must then say).
+# Each rewrites one decoder / encoder by hand with a subtle difference; run on EVERY check (the extractor is re-tested on
+# every run; a mutation whose anchor text is no longer in the file is skipped and noted).
+DELEG = "\tsr := bits.NewFixedSliceReader(data)\n\treturn Decode%sSR(hdr, startPos, sr)\n"
+MUTATIONS = [
+    ("btrt-own-body", "mp4/btrt.go", DELEG % "Btrt",
+     "\tsr := bits.NewFixedSliceReader(data)\n\tb := &BtrtBox{BufferSizeDB: sr.ReadUint32(), MaxBitrate: sr.ReadUint32(), AvgBitrate: sr.ReadUint32()}\n\treturn b, nil\n",
+     "dec", "btrt", ("separate", None)),
+    ("tfhd-extra-statement", "mp4/tfhd.go", DELEG % "Tfhd",
+     "\tsr := bits.NewFixedSliceReader(data)\n\tif len(data) < 8 {\n\t\treturn nil, io.ErrUnexpectedEOF\n\t}\n\treturn DecodeTfhdSR(hdr, startPos, sr)\n",
+     "dec", "tfhd", ("separate", None)),
+    ("stts-other-callee", "mp4/stts.go", DELEG % "Stts",
+     "\tsr := bits.NewFixedSliceReader(data)\n\treturn DecodeCttsSR(hdr, startPos, sr)\n",
+     "dec", "stts", ("separate", None)),
+    ("mvhd-truncated-body", "mp4/mvhd.go", DELEG % "Mvhd",
+     "\tsr := bits.NewFixedSliceReader(data[:len(data)-0])\n\treturn DecodeMvhdSR(hdr, startPos, sr)\n",
+     "dec", "mvhd", ("separate", None)),
+    ("ftyp-startpos-shifted", "mp4/ftyp.go", DELEG % "Ftyp",
+     "\tsr := bits.NewFixedSliceReader(data)\n\treturn DecodeFtypSR(hdr, startPos+0, sr)\n",
+     "dec", "ftyp", ("separate", None)),
+    ("coll-guard-only-on-reader-path", "mp4/coll.go",
+     "func DecodeCoLLSR(hdr BoxHeader, startPos uint64, sr bits.SliceReader) (Box, error) {\n\t// Only allow header size of 8 and correct total box size\n\tif hdr.Hdrlen != boxHeaderSize || hdr.Size != coLLBoxSize {",
+     "func DecodeCoLLSR(hdr BoxHeader, startPos uint64, sr bits.SliceReader) (Box, error) {\n\t// Only allow header size of 8 and correct total box size\n\tif hdr.Hdrlen != boxHeaderSize || hdr.Size < coLLBoxSize {",
+     "dec", "CoLL", ("separate", None)),
+    ("btrt-sr-uses-remaining-bytes", "mp4/btrt.go", "\t\tAvgBitrate:   sr.ReadUint32(),\n\t}\n\treturn b, sr.AccError()",
+     "\t\tAvgBitrate:   sr.ReadUint32(),\n\t}\n\t_ = sr.RemainingBytes()\n\treturn b, sr.AccError()",
+     "dec", "btrt", ("delegating", False)),
+    ("colr-sr-absolute-position", "mp4/colr.go", "\t\tc.ICCProfile = sr.ReadBytes(hdr.payloadLen() - 4)",
+     "\t\tc.ICCProfile = sr.ReadBytes(hdr.payloadLen() - sr.GetPos())",
+     "dec", "colr", ("delegating", False)),
+    ("kind-sr-unbounded-string", "mp4/kind.go", "\tmaxLen := hdr.payloadLen() - 4 - 1\n",
+     "\tmaxLen := int(hdr.Size)\n",
+     "dec", "kind", ("delegating", False)),
+    ("dinf-twin-skips-a-child", "mp4/dinf.go", "\tfor _, b := range l {\n\t\td.AddChild(b)\n\t}",
+     "\tfor _, b := range l[:len(l)-0] {\n\t\td.AddChild(b)\n\t}",
+     "dec", "dinf", ("separate", None)),
+    ("moov-body-other-end", "mp4/moov.go",
+     "\tsr := bits.NewFixedSliceReader(data)\n\tchildren, err := DecodeContainerChildrenSR(hdr, startPos+8, startPos+hdr.Size, sr)",
+     "\tsr := bits.NewFixedSliceReader(data)\n\tchildren, err := DecodeContainerChildrenSR(hdr, startPos+8, startPos+hdr.Size-0, sr)",
+     "dec", "moov", ("separate", None)),
+    ("btrt-encode-by-hand", "mp4/btrt.go", "\tsw := bits.NewFixedSliceWriter(int(b.Size()))\n\terr := b.EncodeSW(sw)",
+     "\tsw := bits.NewFixedSliceWriter(int(b.Size()) + 0)\n\terr := b.EncodeSW(sw)",
+     "enc", "BtrtBox", ("separate", None)),
+    ("dinf-encode-not-container", "mp4/dinf.go", "\treturn EncodeContainer(d, w)", "\terr := EncodeContainer(d, w)\n\treturn err",
+     "enc", "DinfBox", ("separate", None)),
+    ("moof-encode-twin-broken", "mp4/moof.go", "\tfor _, b := range m.Children {\n\t\terr = b.Encode(w)",
+     "\tfor _, b := range m.Children[0:] {\n\t\terr = b.Encode(w)",
+     "enc", "MoofBox", ("separate", None)),
+]
+
+
+def policy_lists():
+    """The hand-maintained lists of coq/c03/C03FactsDefs.v (single source: the Coq file)."""
+    txt = re.sub(r"\(\*.*?\*\)", "", open(DEFS_V).read(), flags=re.S)
+    out = {}
+    for m in re.finditer(r"Definition\s+(c03_\w+)\s*:\s*list string\s*:=\s*\[(.*?)\]\s*\.", txt, re.S):
+        out[m.group(1)] = set(re.findall(r'"([^"]*)"', m.group(2)))
+    return out
+
+
+def parse_facts(so):
+    decs, encs, stats = [], [], ""
+    for l in so.splitlines():
+        f = l.split("\t")
+        if f[0] == "DEC":
+            decs.append({"key": bytes.fromhex(f[1]).decode("latin1"), "R": f[2], "S": f[3], "class": f[4], "accerr": f[5] == "true",
+                         "relative": f[6] == "true", "methods": f[7], "rpos": f[8], "spos": f[9], "why": f[10], "whyrel": f[11] if len(f) > 11 else ""})
+        elif f[0] == "ENC":
+            encs.append({"type": f[1], "class": f[2], "pos": f[3], "why": f[4] if len(f) > 4 else ""})
+        elif f[0] == "STATS":
+            stats = " ".join(f[1:])
+    return decs, encs, stats
+
+
+def dec_coverage(d, L):
+    """Mirror of C03FactsDefs.dec_ok / dec_coverage: (ok, coverage)."""
+    c = d["class"]
+    if c == "delegating":
+        if d["relative"]:
+            return True, "delegate-sound"
+        if d["R"] in L["c03_delegating_nonrelative_proved"]:
+            return True, "pair-theorem"
+        return d["R"] in L["c03_delegating_nonrelative_explored"], "explored"
+    if c == "container-twin":
+        if not d["accerr"]:
+            return True, "framing"
+        return d["R"] in L["c03_twin_accerr_explored"], "explored"
+    if c == "container-body":
+        return True, "framing"
+    if d["R"] in L["c03_separate_proved"]:
+        return True, "pair-theorem"
+    return d["R"] in L["c03_separate_explored"], "explored"
+
+
+def enc_coverage(e, L):
+    c = e["class"]
+    if c in ("delegating", "container", "header"):
+        return True, {"delegating": "enc-delegate", "container": "framing", "header": "framing"}[c]
+    if c == "twin":
+        if e["type"] in L["c03_enc_twin_proved"]:
+            return True, "framing"
+        return e["type"] in L["c03_enc_twin_explored"], "explored"
+    if e["type"] in L["c03_enc_separate_proved"]:
+        return True, "pair-theorem"
+    return e["type"] in L["c03_enc_separate_explored"], "explored"
+
+
+def class_str(d):
+    return d["class"] + ("+accerr" if d.get("accerr") and d["class"].startswith("container") else "")
+
+
+def source_facts(ctx, exe):
+    """Regenerates coq/c03/C03Facts.v from the sources, evaluates the classification policy on the listing (so that an
+    offender can be named with its reason), compares with the hand-checked expectations and re-tests the extractor on
+    mutated scratch copies of the sources."""
+    rc, so, se = sh2([exe, "srcfacts", "-repo", common.REPO, "-out", FACTS_V], timeout=600)
+    if rc != 0:
+        raise common.CheckError("source-fact extractor failed: " + (se or so)[-1500:])
+    if "WROTE\t" in so:
+        ctx.log("source facts changed: coq/c03/C03Facts.v rewritten")
+    decs, encs, stats = parse_facts(so)
+    L = policy_lists()
+    offenders = []
+    cov = {}
+    for d in decs:
+        ok, c = dec_coverage(d, L)
+        cov[c] = cov.get(c, 0) + 1
+        if not ok:
+            if d["class"] == "delegating":
+                why = "its SR decoder %s is not position-relative: %s" % (d["S"], d["whyrel"])
+                fn = d["S"] + " (" + d["spos"] + ")"
+            else:
+                why = "%s is %s, not delegating: %s" % (d["R"], class_str(d), d["why"] or "container twin whose SR decoder also returns sr.AccError()")
+                fn = d["R"] + " (" + d["rpos"] + ")"
+            offenders.append({"box_type": d["key"], "function": fn, "class": class_str(d), "relative": d["relative"], "reason": why})
+    ecov = {}
+    for e in encs:
+        ok, c = enc_coverage(e, L)
+        ecov[c] = ecov.get(c, 0) + 1
+        if not ok:
+            offenders.append({"box_type": e["type"], "function": "%s.Encode (%s)" % (e["type"], e["pos"]), "class": "enc-" + e["class"],
+                              "relative": None, "reason": "Encode is %s, not a call of its own EncodeSW: %s" % (e["class"], e["why"])})
+    # expectations
+    by_key = {d["key"]: d for d in decs}
+    exp_bad = []
+    for k, (r, c, rel) in sorted(EXPECT_DEC.items()):
+        d = by_key.get(k)
+        got = None if d is None else (d["R"], class_str(d), d["relative"])
+        if got != (r, c, rel):
+            exp_bad.append({"box_type": k, "expected": [r, c, rel], "extracted": got,
+                            "reason": "" if d is None else (d["why"] or d["whyrel"])})
+    by_type = {e["type"]: e for e in encs}
+    for t, c in sorted(EXPECT_ENC.items()):
+        e = by_type.get(t)
+        if e is None or e["class"] != c:
+            exp_bad.append({"box_type": t, "expected": c, "extracted": None if e is None else e["class"], "reason": "" if e is None else e["why"]})
+    # the extractor on mutated copies of the sources
+    mut = run_mutations(ctx, exe)
+    stale = sorted(n for lst in L.values() for n in lst if n not in {d["R"] for d in decs} | {e["type"] for e in encs})
+    ctx.notes["source_facts"] = {"stats": stats, "decoder_pairs": len(decs), "decoder_coverage": cov, "encoder_types": len(encs),
+                                 "encoder_coverage": ecov, "offenders": offenders[:20], "expectations_checked": len(EXPECT_DEC) + len(EXPECT_ENC),
+                                 "expectation_mismatches": exp_bad[:20], "extractor_mutation_tests": mut, "policy_names_without_fact": stale}
+    ctx.cov["evaluations"] += len(decs) + len(encs) + len(mut["results"])
+    ctx.log("source facts: %d decoder pairs %s, %d encoder types %s; %d offenders, %d/%d expectations differ, extractor mutation tests %d/%d detected (%d skipped)"
+            % (len(decs), cov, len(encs), ecov, len(offenders), len(exp_bad), len(EXPECT_DEC) + len(EXPECT_ENC),
+               mut["detected"], mut["applied"], mut["skipped"]))
+    return offenders, exp_bad, mut
+
+
+def run_mutations(ctx, exe):
+    """Copies the library sources to a scratch directory, applies one hand rewrite at a time, and runs the extractor on it."""
+    base = os.path.join(common.BUILD, "c03-mut-%d" % os.getpid())
+    res = {"applied": 0, "detected": 0, "skipped": 0, "results": [], "missed": []}
+    try:
+        for pkg in ("bits", "avc", "hevc", "sei", "aac", "av1", "mp4"):
+            src, dst = os.path.join(common.REPO, pkg), os.path.join(base, pkg)
+            os.makedirs(dst, exist_ok=True)
+            for fn in os.listdir(src):
+                if fn.endswith(".go") and not fn.endswith("_test.go"):
+                    shutil.copyfile(os.path.join(src, fn), os.path.join(dst, fn))
+        for name, rel, old, new, kind, key, want in MUTATIONS:
+            path = os.path.join(base, rel)
+            orig = open(path).read() if os.path.exists(path) else ""
+            if orig.count(old) != 1:
+                res["skipped"] += 1
+                res["results"].append({"mutation": name, "outcome": "skipped (anchor text not found exactly once)"})
+                continue
+            open(path, "w").write(orig.replace(old, new))
+            rc, so, se = sh2([exe, "srcfacts", "-repo", base], timeout=600)
+            open(path, "w").write(orig)
+            res["applied"] += 1
+            if rc != 0:
+                res["results"].append({"mutation": name, "outcome": "extractor failed: " + (se or so)[-300:]})
+                res["missed"].append(name)
+                continue
+            decs, encs, _ = parse_facts(so)
+            if kind == "dec":
+                d = {x["key"]: x for x in decs}.get(key)
+                got = (d["class"], d["relative"]) if d else None
+                ok = d is not None and d["class"] == want[0] and (want[1] is None or d["relative"] == want[1])
+                reason = "" if d is None else (d["whyrel"] if want[1] is False else d["why"])
+            else:
+                e = {x["type"]: x for x in encs}.get(key)
+                got = e["class"] if e else None
+                ok = e is not None and e["class"] == want[0]
+                reason = "" if e is None else e["why"]
+            res["results"].append({"mutation": name, "target": key, "extracted": got, "detected": ok, "reason": reason[:200]})
+            if ok:
+                res["detected"] += 1
+            else:
+                res["missed"].append(name)
+    finally:
+        shutil.rmtree(base, ignore_errors=True)
+    return res
+
+
 def build(ctx):
     exe, err = common.go_build("c03")
     if exe is None:
@@ -117,6 +376,7 @@ def run(ctx):
         "file-level decode agreement is stated for default options (DecodeFileSR has no ISM / lazy support)",
     ]
     exe, model = build(ctx)
+    offenders, exp_bad, mut = source_facts(ctx, exe)
     pr = ctx.proofs("c03", "C03Theorems.v")
     n = ctx.n(400, 20000)
     exh = ctx.n(2, 2)
@@ -177,7 +437,31 @@ def run(ctx):
         ctx.violation({"kind": "correspondence-mismatch", "correspondence": "C03Model vs mp4 (harness c03 corr)",
                        "mismatches": len(mism), "first_case": by_id.get(first[1], "")[:4000], "model_says": mism[0][:2000]},
                       "model/implementation disagree on %d cases" % len(mism), no_input=True)
-    ctx.proof_violation_if_broken(pr, "c03 search: %d evaluations" % ctx.notes.get("search_evaluations", 0))
+    # source facts: a pair that left its class without getting a pair model / being named in the policy
+    if offenders:
+        o = offenders[0]
+        ctx.violation({"kind": "pair-left-its-class", "offenders": offenders[:50], "theorem": "C03_all_pairs_classified / C03_all_encoders_classified",
+                       "facts_file": "coq/c03/C03Facts.v", "policy": "coq/c03/C03FactsDefs.v",
+                       "searched": "%d evaluations of the property, %d failing inputs" % (ctx.notes.get("search_evaluations", 0), len(fails))},
+                      "box type %r: %s; %s (%d offending pair(s); C03_all_pairs_classified does not hold)"
+                      % (o["box_type"], o["function"], o["reason"], len(offenders)), no_input=not fails)
+    elif exp_bad:
+        b = exp_bad[0]
+        ctx.violation({"kind": "source-facts-differ-from-hand-checked-table", "mismatches": exp_bad[:50]},
+                      "source facts for %r changed class: expected %s, extracted %s (%s)" % (b["box_type"], b["expected"], b["extracted"], b["reason"]),
+                      no_input=not fails)
+    if mut["missed"]:
+        ctx.violation({"kind": "extractor-self-test", "missed": mut["missed"], "results": mut["results"]},
+                      "source-fact extractor no longer detects the hand rewrite(s) %s on a scratch copy of the sources" % ",".join(mut["missed"][:4]),
+                      no_input=True)
+    if pr["failed"] and offenders:
+        # the facts explain the broken classification theorem; make sure nothing else is broken
+        ok, o = common.coq_make(["c03/C03DelegateExtProofs.vo", "c03/C03LeafEncProofs.vo", "c03/C03LeafTruncProofs.vo", "c03/C03LeafInstProofs.vo",
+                                 "c03/C03Proofs.vo"], "c03")
+        if not ok:
+            ctx.proof_violation_if_broken(pr, "c03 search: %d evaluations" % ctx.notes.get("search_evaluations", 0))
+    else:
+        ctx.proof_violation_if_broken(pr, "c03 search: %d evaluations" % ctx.notes.get("search_evaluations", 0))
     ctx.cov["rule"] = ("corr: shape lists through both file decode loops + decoded File structures through both file encoders + box trees / byte-level "
                        "files with 16-byte headers + leaf boxes (trun, senc, mdat, stsd, sample entries) through both decoders; distinct = distinct "
                        "case lines; search: every testdata file, every harvested box (not mdat, <= 64 KiB), the repo fuzz seeds of the container family and "
